@@ -108,6 +108,10 @@ func c20(r *Report) propMeta {
 	r.Exists("assigned-time-formula", ca, RetValEff(0, "^call:time.Unix", "param:timestamp", "param:interval", "binop:/", "const:100", "binop:%", "param:dpOffset", "param:dpStart", "call:sha256.Sum256", "param:valAddr"), 1)
 	c20Defaults(r)
 
+	r.Rule("C20.R6", "the daemon's gate is the chain's admission test; shared rules")
+	r.Callers("admission-users", "x/feeds/keeper.Keeper.ValidateValidatorRequiredToSend", []string{"x/feeds/keeper.msgServer.SubmitSignalPrices", "x/feeds/keeper.queryServer.ValidValidator", "x/globalfee/feechecker.FeeChecker.IsBypassMinFeeMsg", "feechecker.FeeChecker.isBypassMinFeeMsg"}, []string{"x/feeds/keeper.msgServer.SubmitSignalPrices", "x/feeds/keeper.queryServer.ValidValidator"})
+	r.Include("C15", "C15.R5")
+
 	return propMeta{
 		Decided: []string{
 			"R1 submitPrice installs, before any return, a defer that unconditionally calls removePending(the submission's own prices) and returns the key; removePending deletes each signal id from the shared set",
@@ -116,6 +120,7 @@ func c20(r *Report) propMeta {
 			"R4 chain rejects under blockTime < latest.Timestamp + CooldownTime (only with a previous price) and only accepts current feeds; the daemon returns true only past not now.Before(old.Timestamp + CooldownTime + TimeBuffer) with TimeBuffer >= 0 a constant: same operands, daemon at least as late",
 			"R5 shouldUpdatePrice = past threshold && (assigned time reached || status changed || isDeviated); isDeviated compares deviationBasisPoint <= dev; UNAVAILABLE prices are held back until deadline - FixedIntervalOffset",
 			"R6 assigned time = timestamp + interval*(hash % dpOffset + dpStart)/100 with the CLI defaults keeping dpStart + dpOffset <= 100",
+			"R6 the ValidValidator query, grogu's only gate before it builds a submission, and the SubmitSignalPrices handler both call ValidateValidatorRequiredToSend (bonded AND oracle-active); the update-marker / stored-clock rules of C15.R5 are evaluated here too",
 		},
 		Undecided: []string{"'re-submits before the interval runs out' and promptness over price streams and polling phases (closed-loop timing) — the larger half of C20", "clock skew between daemon and chain beyond TimeBuffer"},
 		Assume:    []string{"Go defer semantics (runs on panic too)", "sync.Map linearizability"},
